@@ -5,8 +5,8 @@ C16 — `eval()` and the time-series helpers compute what their definitions say.
 
 Part 1 (this section): `lag`, `lead`, `diff`, `dlog` of `fsic/functions.py`.  All statements are for arrays of
 EVERY length (including 0), EVERY integer shift (zero, negative, `|p| ≥ n`), every fill value and every element
-type (subtraction and `log` are parameters).  Part 2 (further down) covers `eval()`: the rewriting of one bracket
-group by `_resolve_expression_indexes`, and the namespace assembly.
+type (subtraction and `log` are parameters).  Part 2 (further down) covers `eval()`: the index rewriting of
+`_resolve_expression_indexes`, and the namespace assembly.
 -/
 set_option linter.unusedSimpArgs false
 namespace Fsic.C16
@@ -253,12 +253,80 @@ example : (diffM (· - ·) (⟨[[10, 20, 40]]⟩ : Mem Int) 0 1 0).map (fun r =>
 
 /-! ## Part 2 — `eval()`
 
-Statements are about the rewriting of ONE bracket group (`resolveGroupSem`: what `resolve_indexes` makes of
-`match.group(1)`) for every span (`Span` is a parameter: membership + location), and about the namespace.
-The substitution loop over the whole expression (`subAll`, the regex) is tied to the code by the exhaustive
-correspondence check only. -/
+`_resolve_expression_indexes` = `index_re.sub(resolve_indexes, expression)`.  In the model the expression is cut
+into segments (`segments`: literal characters and regex matches with their `group(1)` / `group(0)`), and every
+match is replaced by `resolveMatch sp group text`.  Theorems are for every span (`Span` is a parameter:
+membership + location) and every expression.  That `segments` is what Python's `re` finds is tied to the code by
+the exhaustive correspondence check (all short bracket texts), not proved. -/
 
 open Fsic.EvalIdx
+
+/-- A group is "purely positional" when it is absent or has no backtick. -/
+def Positional (g : Option (List Char)) : Prop := ∀ t, g = some t → t.contains '`' = false
+
+/-- **positional_untouched (one match).**  A bracket group without a backtick is returned verbatim — whatever
+    it contains (`[0:2]`, `[1+1]`, `[[0, 1]]`, `[ ]`, …) and whatever the span. -/
+theorem positional_group_verbatim (sp : Span) (g : Option (List Char)) (text : List Char) (h : Positional g) :
+    resolveMatch sp g text = .ok text := by
+  have hs : resolveGroupSem sp g = .ok .verbatim := by
+    unfold resolveGroupSem
+    split
+    · rfl
+    · rename_i t
+      have ht := h t rfl
+      have hm : '`' ∉ t := by simpa using ht
+      simp [hm]
+  unfold resolveMatch
+  rw [hs]
+  rfl
+
+/-- **positional_untouched (every expression).**  Wherever a purely positional match sits among the segments
+    of an expression — before, after or between backticked groups — its text goes to the output unchanged and the
+    rest is processed independently.  Together with `segments_cover` (the segments, read back, are the
+    expression) this is the property's "purely positional indexes and slices keep their ordinary Python meaning
+    wherever they appear". -/
+theorem positional_untouched (sp : Span) (pre post : List Seg) (g : Option (List Char)) (text : List Char)
+    (h : Positional g) :
+    substitute (resolveMatch sp) (pre ++ .grp g text :: post) =
+      match substitute (resolveMatch sp) pre, substitute (resolveMatch sp) post with
+      | .ok a, .ok b => .ok (a ++ (text ++ b))
+      | .error e, _ => .error e
+      | .ok _, .error e => .error e := by
+  rw [substitute_append]
+  simp only [substitute, positional_group_verbatim sp g text h]
+  cases substitute (resolveMatch sp) pre with
+  | error e => rfl
+  | ok a => cases substitute (resolveMatch sp) post <;> simp [Except.map]
+
+theorem segments_cover (e : List Char) : (segments e 0).flatMap Seg.text = e := by
+  simpa using segments_text e 0
+
+/-- If every match of an expression is purely positional the expression is returned as it is. -/
+theorem positional_expression_identity (sp : Span) (ss : List Seg)
+    (h : ∀ g t, Seg.grp g t ∈ ss → Positional g) :
+    substitute (resolveMatch sp) ss = .ok (ss.flatMap Seg.text) := by
+  induction ss with
+  | nil => rfl
+  | cons x xs ih =>
+    have ih' := ih (fun g t hm => h g t (by simp [hm]))
+    cases x with
+    | lit c => simp [substitute, ih', Seg.text, Except.map]
+    | grp g t =>
+      simp [substitute, positional_group_verbatim sp g t (h g t (by simp)), ih', Seg.text, Except.map]
+
+example : segments ['X', '[', '`', '1', '`', ']', '+', 'Y', '[', '0', ':', '2', ']'] 0 =
+    [.lit 'X', .grp (some ['`', '1', '`']) ['[', '`', '1', '`', ']'], .lit '+', .lit 'Y',
+     .grp (some ['0', ':', '2']) ['[', '0', ':', '2', ']']] := by decide
+example : Positional (some ['0', ':', '2']) := by
+  intro t h
+  cases h
+  decide
+
+/-- An expression without any backtick is not rewritten at all (`eval` does not even call the rewriting). -/
+theorem no_backtick_identity (sp : Span) (expr : List Char) (h : expr.contains '`' = false) :
+    resolveExpression sp expr = .ok expr := by
+  have hm : '`' ∉ expr := by simpa using h
+  simp [resolveExpression, hm]
 
 /-- **A backticked label is rewritten to the position label indexing uses.**  `txt` is the bracket content
     (blanks around the backticks allowed); `l` is the label object the text denotes (the string if the span has
@@ -283,18 +351,24 @@ theorem startBound_label (sp : Span) (a : List Char) (la : Label) (ka : Int) (pa
     (ha : a.contains '`' = true) (hda : denotes sp (periodText a) = some la) (hla : sp.locate la = .pos ka pa) :
     startBound sp a = .ok (.val ka) := by
   have hm : '`' ∈ a := by simpa using ha
-  simp [startBound, hm, contains_imp_not_isEmpty a '`' ha, resolveIndexInSpan, ha, hda, hla, ixOfLoc]
+  simp [startBound, hm, resolveIndexInSpan, hda, hla, ixOfLoc]
 
 theorem stopBound_label (sp : Span) (b : List Char) (lb : Label) (kb : Int) (pb : Bool)
     (hb : b.contains '`' = true) (hdb : denotes sp (periodText b) = some lb) (hlb : sp.locate lb = .pos kb pb) :
     stopBound sp b = .ok (.val (if pb then kb + 1 else kb)) := by
   have hm : '`' ∈ b := by simpa using hb
-  simp [stopBound, hm, contains_imp_not_isEmpty b '`' hb, resolveIndexInSpan, hb, hdb, hlb, ixOfLoc]
+  simp [stopBound, hm, resolveIndexInSpan, hdb, hlb, ixOfLoc]
+
+/-- A slice component without a backtick keeps its (stripped) text: it is neither parsed nor incremented. -/
+theorem bound_positional (sp : Span) (t : List Char) (h : t.contains '`' = false) :
+    startBound sp t = .ok (.text t) ∧ stopBound sp t = .ok (.text t) := by
+  have hm : '`' ∉ t := by simpa using h
+  simp [startBound, stopBound, hm]
 
 /-- **Backticked label slices are inclusive of the stop label** — when the locator returns Python ints
-    (list / tuple / range spans, pandas `get_loc`): `` [`a`:`b`] `` becomes `[pos a : pos b + 1 :]`, exactly the
-    bounds `_resolve_period_slice` computes for `obj[name, a:b]`.  (`a`, `b` are the two components as they
-    stand between the brackets; the code strips them first.) -/
+    (list / tuple / range / NumPy spans: `builtin_spans_python_int`; pandas `get_loc`): `` [`a`:`b`] `` becomes
+    `[pos a : pos b + 1 :]`, exactly the bounds `_resolve_period_slice` computes for `obj[name, a:b]`.
+    (`a`, `b` are the two components as they stand between the brackets; the code strips them first.) -/
 theorem resolve_labels_spec (sp : Span) (a b : List Char) (la lb : Label) (ka kb : Int)
     (hca : ∀ c ∈ a, c ≠ ':') (hcb : ∀ c ∈ b, c ≠ ':')
     (ha : (strip a).contains '`' = true) (hb : (strip b).contains '`' = true)
@@ -303,7 +377,9 @@ theorem resolve_labels_spec (sp : Span) (a b : List Char) (la lb : Label) (ka kb
     resolveGroupSem sp (some (a ++ ':' :: b)) = .ok (.slice (.val ka) (.val (kb + 1)) []) ∧
     labelSliceBounds sp la lb = .ok (ka, kb + 1) := by
   refine ⟨?_, by simp [labelSliceBounds, hla, hlb]⟩
-  simp only [resolveGroupSem, splitOn_append_sep ':' a b hca, splitOn_no_sep ':' b hcb, resolveParts]
+  have hg : (a ++ ':' :: b).contains '`' = true :=
+    contains_append_left _ _ _ (contains_of_strip_contains _ _ ha)
+  simp only [resolveGroupSem, hg, if_true, splitOn_append_sep ':' a b hca, splitOn_no_sep ':' b hcb, resolveParts]
   rw [startBound_label sp _ la ka true ha hda hla, stopBound_label sp _ lb kb true hb hdb hlb]
   rfl
 
@@ -318,33 +394,48 @@ theorem resolve_labels_spec_step (sp : Span) (a b s : List Char) (la lb : Label)
     (hda : denotes sp (periodText (strip a)) = some la) (hdb : denotes sp (periodText (strip b)) = some lb)
     (hla : sp.locate la = .pos ka true) (hlb : sp.locate lb = .pos kb true) :
     resolveGroupSem sp (some (a ++ ':' :: (b ++ ':' :: s))) = .ok (.slice (.val ka) (.val (kb + 1)) (strip s)) := by
-  simp only [resolveGroupSem, splitOn_append_sep ':' a _ hca, splitOn_append_sep ':' b s hcb,
+  have hg : (a ++ ':' :: (b ++ ':' :: s)).contains '`' = true :=
+    contains_append_left _ _ _ (contains_of_strip_contains _ _ ha)
+  simp only [resolveGroupSem, hg, if_true, splitOn_append_sep ':' a _ hca, splitOn_append_sep ':' b s hcb,
     splitOn_no_sep ':' s hcs, resolveParts]
   rw [startBound_label sp _ la ka true ha hda hla, stopBound_label sp _ lb kb true hb hdb hlb]
   rfl
 
-/-- Open start: `` [:`b`] `` keeps the start empty (Python's own "from the beginning") and includes `b`. -/
-theorem resolve_labels_open_start (sp : Span) (a b : List Char) (lb : Label) (kb : Int)
-    (hca : ∀ c ∈ a, c ≠ ':') (hcb : ∀ c ∈ b, c ≠ ':') (ha : strip a = [])
+/-- **Mixed slice, positional start:** `` [2:`b`] `` keeps the start text and includes `b`
+    (open start `` [:`b`] `` is the case `strip a = []`). -/
+theorem mixed_slice_positional_start (sp : Span) (a b : List Char) (lb : Label) (kb : Int)
+    (hca : ∀ c ∈ a, c ≠ ':') (hcb : ∀ c ∈ b, c ≠ ':') (ha : (strip a).contains '`' = false)
     (hb : (strip b).contains '`' = true) (hdb : denotes sp (periodText (strip b)) = some lb)
     (hlb : sp.locate lb = .pos kb true) :
-    resolveGroupSem sp (some (a ++ ':' :: b)) = .ok (.slice .empty (.val (kb + 1)) []) := by
-  simp only [resolveGroupSem, splitOn_append_sep ':' a b hca, splitOn_no_sep ':' b hcb, resolveParts]
-  rw [stopBound_label sp _ lb kb true hb hdb hlb, ha]
+    resolveGroupSem sp (some (a ++ ':' :: b)) = .ok (.slice (.text (strip a)) (.val (kb + 1)) []) := by
+  have hg : (a ++ ':' :: b).contains '`' = true :=
+    contains_append_right _ _ _ (by
+      have := contains_of_strip_contains _ _ hb
+      have hm : '`' ∈ b := by simpa using this
+      simp [hm])
+  simp only [resolveGroupSem, hg, if_true, splitOn_append_sep ':' a b hca, splitOn_no_sep ':' b hcb, resolveParts]
+  rw [stopBound_label sp _ lb kb true hb hdb hlb, (bound_positional sp _ ha).1]
   rfl
 
-/-- Open stop: `` [`a`:] `` starts at `a` and keeps the stop empty (Python's own "to the end"). -/
-theorem resolve_labels_open_stop (sp : Span) (a b : List Char) (la : Label) (ka : Int) (pa : Bool)
-    (hca : ∀ c ∈ a, c ≠ ':') (hcb : ∀ c ∈ b, c ≠ ':') (hb : strip b = [])
+/-- **Mixed slice, positional stop:** `` [`a`:4] `` starts at `a` and keeps the stop text — the `stop += 1` rule
+    applies only to a resolved label (open stop `` [`a`:] `` is the case `strip b = []`). -/
+theorem mixed_slice_positional_stop (sp : Span) (a b : List Char) (la : Label) (ka : Int) (pa : Bool)
+    (hca : ∀ c ∈ a, c ≠ ':') (hcb : ∀ c ∈ b, c ≠ ':') (hb : (strip b).contains '`' = false)
     (ha : (strip a).contains '`' = true) (hda : denotes sp (periodText (strip a)) = some la)
     (hla : sp.locate la = .pos ka pa) :
-    resolveGroupSem sp (some (a ++ ':' :: b)) = .ok (.slice (.val ka) .empty []) := by
-  simp only [resolveGroupSem, splitOn_append_sep ':' a b hca, splitOn_no_sep ':' b hcb, resolveParts]
-  rw [startBound_label sp _ la ka pa ha hda hla, hb]
+    resolveGroupSem sp (some (a ++ ':' :: b)) = .ok (.slice (.val ka) (.text (strip b)) []) := by
+  have hg : (a ++ ':' :: b).contains '`' = true :=
+    contains_append_left _ _ _ (contains_of_strip_contains _ _ ha)
+  simp only [resolveGroupSem, hg, if_true, splitOn_append_sep ':' a b hca, splitOn_no_sep ':' b hcb, resolveParts]
+  rw [startBound_label sp _ la ka pa ha hda hla, (bound_positional sp _ hb).2]
   rfl
 
 example : resolveGroupSem (listSpan [.int 2000, .int 2001, .int 2002]) (some [':', '`', '2', '0', '0', '1', '`'])
-    = .ok (.slice .empty (.val 2) []) := rfl
+    = .ok (.slice (.text []) (.val 2) []) := rfl
+example : resolveGroupSem (listSpan [.int 2000, .int 2001, .int 2002]) (some ['1', ':', '`', '2', '0', '0', '2', '`'])
+    = .ok (.slice (.text ['1']) (.val 3) []) := rfl
+example : resolveGroupSem (listSpan [.int 2000, .int 2001, .int 2002]) (some ['`', '2', '0', '0', '1', '`', ':', ' ', '3'])
+    = .ok (.slice (.val 1) (.text ['3']) []) := rfl
 
 /-- The guard of `resolve_labels_spec` (the locator returns Python ints) holds for the two span models that the
     code itself implements: list-like spans (`.index`) and NumPy-array spans (fallback locator, `int(...)`).
@@ -372,75 +463,9 @@ theorem missing_label_keyerror (sp : Span) (txt : List Char)
     (hbt : txt.contains '`' = true) (hcol : ∀ c ∈ txt, c ≠ ':') (hden : denotes sp (periodText txt) = none) :
     resolveGroupSem sp (some txt) = .error .keyError := by
   have hm : '`' ∈ txt := by simpa using hbt
-  simp [hm, resolveGroupSem, splitOn_no_sep ':' txt hcol, resolveParts, resolveSingle, resolveIndexInSpan, hbt, hden]
+  simp [hm, resolveGroupSem, splitOn_no_sep ':' txt hcol, resolveParts, resolveSingle, resolveIndexInSpan, hden]
 
 example : resolveGroupSem (listSpan [.int 2000, .int 2001]) (some ['`', '1', '9', '`']) = .error .keyError := rfl
-
-/-! ### Purely positional indexes and slices
-
-`_resolve_expression_indexes` rewrites EVERY bracket group of an expression that contains a backtick anywhere —
-also the groups that have no backtick themselves. -/
-
-/-- The property's FULL statement: a purely positional slice `start:stop` keeps its meaning. -/
-def PositionalUntouched : Prop :=
-  ∀ (sp : Span) (start stop : List Char) (i j : Int),
-    (∀ c ∈ start, c ≠ ':') → (∀ c ∈ stop, c ≠ ':') →
-    (strip start).contains '`' = false → (strip stop).contains '`' = false →
-    parsePyInt (strip start) = some i → parsePyInt (strip stop) = some j →
-    resolveGroupSem sp (some (start ++ ':' :: stop)) = .ok (.slice (.val i) (.val j) [])
-
-/-- FALSE of the code (finding `eval-positional-stop-shifted`): `[0:2]` becomes `[0:3:]`. -/
-theorem positional_untouched_false_at_witness : ¬ PositionalUntouched := by
-  intro h
-  have h1 := h (listSpan []) ['0'] ['2'] 0 2 (by decide) (by decide) rfl rfl rfl rfl
-  have h2 : resolveGroupSem (listSpan []) (some (['0'] ++ ':' :: ['2'])) = .ok (.slice (.val 0) (.val 3) []) := rfl
-  rw [h2] at h1
-  injection h1 with h1
-  injection h1 with _ h1 _
-  injection h1 with h1
-  exact absurd h1 (by decide)
-
-/-- FALSE of the code (finding `eval-positional-nonliteral`): a positional index that is an expression, here
-    `1+1`, is not kept — `int('1+1')` raises ValueError, for every span. -/
-theorem positional_nonliteral_false_at_witness (sp : Span) :
-    resolveGroupSem sp (some ['1', '+', '1']) = .error .valueError := rfl
-
-/-- `_partial` (1): a positional index that is an integer literal keeps its value (`[ 7 ]`, `[-1]`, `[+1]`). -/
-theorem positional_index_partial (sp : Span) (txt : List Char) (i : Int)
-    (hbt : txt.contains '`' = false) (hcol : ∀ c ∈ txt, c ≠ ':') (hi : parsePyInt (strip txt) = some i) :
-    resolveGroupSem sp (some txt) = .ok (.index i) := by
-  have hm : '`' ∉ txt := by simpa using hbt
-  simp [hm, resolveGroupSem, splitOn_no_sep ':' txt hcol, resolveParts, resolveSingle, resolveIndexInSpan, hbt, hi]
-
-example : resolveGroupSem (listSpan []) (some [' ', '-', '1', ' ']) = .ok (.index (-1)) := rfl
-
-/-- `_partial` (2): a positional slice WITHOUT an explicit stop keeps its meaning: an integer-literal (or empty)
-    start is kept, the stop stays empty, the step text is copied. -/
-theorem positional_slice_partial (sp : Span) (start stop step : List Char) (i : Int)
-    (hc1 : ∀ c ∈ start, c ≠ ':') (hc2 : ∀ c ∈ stop, c ≠ ':') (hc3 : ∀ c ∈ step, c ≠ ':')
-    (hbt : (strip start).contains '`' = false) (hne : (strip start).isEmpty = false)
-    (hi : parsePyInt (strip (strip start)) = some i) (hstop : strip stop = []) :
-    resolveGroupSem sp (some (start ++ ':' :: stop)) = .ok (.slice (.val i) .empty []) ∧
-    resolveGroupSem sp (some (start ++ ':' :: (stop ++ ':' :: step))) = .ok (.slice (.val i) .empty (strip step)) := by
-  have hs : startBound sp (strip start) = .ok (.val i) := by
-    have hm : '`' ∉ strip start := by simpa using hbt
-    simp [hm, startBound, hne, resolveIndexInSpan, hbt, hi]
-  constructor
-  · simp only [resolveGroupSem, splitOn_append_sep ':' start stop hc1, splitOn_no_sep ':' stop hc2, resolveParts]
-    rw [hs, hstop]
-    rfl
-  · simp only [resolveGroupSem, splitOn_append_sep ':' start _ hc1, splitOn_append_sep ':' stop step hc2,
-      splitOn_no_sep ':' step hc3, resolveParts]
-    rw [hs, hstop]
-    rfl
-
-example : resolveGroupSem (listSpan []) (some ['1', ':', ':', '2']) = .ok (.slice (.val 1) .empty ['2']) := rfl
-
-/-- `_partial` (3): an expression without any backtick is not rewritten at all. -/
-theorem no_backtick_identity (sp : Span) (expr : List Char) (h : expr.contains '`' = false) :
-    resolveExpression sp expr = .ok expr := by
-  have hm : '`' ∉ expr := by simpa using h
-  simp [resolveExpression, hm]
 
 /-! ### Namespace -/
 
